@@ -1,5 +1,5 @@
 ---- MODULE MC_q_mod ----
 EXTENDS MCOFWire
-TheCases == Modified \cup NXModified
+TheCases == Modified(0) \cup NXModified(0)
 TheAround == AroundOne
 ====
